@@ -2,9 +2,12 @@
 import Frugal.Proofs.BitsetLemmas
 import Frugal.Proofs.ReaderProps
 import Frugal.Proofs.EncodeRefine
-import Frugal.Props.Instances
 import Frugal.Proofs.DecodeRefine
 import Frugal.Proofs.ReqEverywhere
+import Frugal.Props.Inst.Params
+import Frugal.Props.Inst.F_valid_bitset
+import Frugal.Props.Inst.F_skeleton_decoder
+import Frugal.Props.Inst.F_skeleton_encoder
 namespace Frugal.C09
 open Frugal
 theorem ids_in_range (i : Nat) (hi : i < 65536) : bsInRange Generated.params i = true :=
@@ -82,4 +85,16 @@ theorem missing_required_anywhere_is_rejected (S : Schema) (hS : S.ok = true) (s
 example : let S : Schema := [{ fields := [{ id := 1, req := .dflt, ty := .list false (.strct 1) }] },
                              { fields := [{ id := 7, req := .required, ty := .base .i32 }] }]
     reqOK S (.strct 0) (.strct [(1, .list 12 [.strct [(7, .i32 5)], .strct []])]) = false := by decide
+/-- the theorems above that speak of `decodeM` / the reference reader are about the hand-written model
+    of `Decode` / `decodeType` / `decodeStringNoCopy` / `decodeFixedSizeTypes` / `skipUnknown`
+    (Decode.lean), written from exactly this control structure of the code (regenerated fingerprint) -/
+theorem decoder_model_written_from_this_code : Generated.facts.decoderSkeleton = Skeleton.decoder :=
+  Instances.skeleton_decoder
+
+/-- … and those that speak of `appendM` / `sizeM` about the hand-written model of `appendStruct` /
+    `appendAny` / the size walk / the entry points (Encode.lean), written from exactly this control
+    structure of the code (regenerated fingerprint; the fast-path tables are regenerated themselves) -/
+theorem encoder_model_written_from_this_code : Generated.facts.encoderSkeleton = Skeleton.encoder :=
+  Instances.skeleton_encoder
+
 end Frugal.C09
